@@ -66,6 +66,7 @@ def parseEv (ws : List String) : Option Ev :=
   | ["readerr"] => some .serveReadErr
   | ["exit"] => some .serveExit
   | ["abort", i] => i.toNat?.map .callAbort
+  | ["giveup", i] => i.toNat?.map .giveUp
   | ["sever"] => some .sever
   | _ => none
 
@@ -131,6 +132,8 @@ def DState.step (d : DState) (line : String) : DState × String :=
     let sd := ((kv rest "shutdown").getD "").splitOn ","
     let cs := typs.filterMap fun t => t.toNat?.map fun n => ({ typ := n } : Caller)
     let cs := cs.zipIdx.map fun (c, i) => if sd.contains (toString i) then { c with isShutdown := true } else c
+    let cn := ((kv rest "ctx").getD "").splitOn ","
+    let cs := cs.zipIdx.map fun (c, i) => if cn.contains (toString i) then { c with cancellable := true } else c
     let fx := match kv rest "fx" with
       | some "0" => false
       | some "1" => true
